@@ -13,7 +13,7 @@ EXTRA = {'C01-A': ['C03'], 'C01-B': ['C08'], 'C02-A': ['C14', 'C10'], 'C02-B': [
          'C02-C': ['C09'], 'C02-D': ['C11'], 'C04-C': ['C07'], 'C04-D': ['C05'], 'C05-C': ['C07', 'C04'], 'C05-D': ['C04'], 'C08-C': ['C09'], 'C09-D': ['C08'],
          'C10-C': ['C03', 'C01'], 'C10-D': ['C11'], 'C06-C': ['C08'],
          'C01-C': ['C08'], 'C01-D': ['C04', 'C07'], 'C18-C': ['C04', 'C07'], 'C18-D': ['C05'], 'C07-C': ['C04'], 'C07-D': ['C14'], 'C03-C': ['C16'], 'C13-C': ['C03'], 'C14-C': ['C08'], 'C12-C': ['C06']}
-NEEDS = {}
+NEEDS = json.load(open(os.path.join(V, 'lib', 'seeded_needs.json')))
 
 
 def one(name):
@@ -23,7 +23,7 @@ def one(name):
     tier = 'quick'
     res = selftest.run_on_scratch(os.path.join(d, 'patch.diff'), checks, tier) or {}
     conf = json.load(open(os.path.join(d, 'confirm.json')))
-    readme = os.path.join(V, '.work', 'staging', prop, 'README.md')
+    readme = os.path.join(V, '.work', 'staging', prop, 'README_CD.md' if name[-1] in 'CD' else 'README.md')
     meta = {'seeded_change': name, 'breaks_property': prop,
             'written_by': 'independent sub-agent given only the property text and a scratch worktree',
             'needs_to_manifest': NEEDS.get(name, 'see description.md (excerpt of the author\'s README)'),
